@@ -292,8 +292,31 @@ pub fn profile() -> &'static str {
     }
 }
 
+/// Towers of two-digit powers over a quantity whose value is 0, 1 or -1 (so the exact answer stays tiny
+/// whatever the exponents are): `(((1 m^12)^-34)^56)^78`.  Not sanitised — the unit's power may leave i32.
+fn power_tower() -> impl Strategy<Value = String> {
+    let v = prop_oneof![Just("1"), Just("-1"), Just("0"), Just("1.0"), Just("1e0"), Just("100%")];
+    // unprefixed SI base units only: a unit with a scale factor or prefix would make the exact value a
+    // number with hundreds of thousands of digits (a resource test, not a crash test)
+    const BASE: [&str; 8] = ["m", "s", "A", "K", "mol", "cd", "B", "kg"];
+    (v, any::<u16>(), prop::option::weighted(0.7, -99i32..=99), prop::collection::vec((-99i32..=99, prop_oneof![Just("^"), Just(" ^ "), Just("**"), Just(" ** ")]), 1..=7), any::<bool>()).prop_map(move |(v, wi, p0, levels, tail)| {
+        let word = BASE[pick_idx(wi, BASE.len())].to_string();
+        let mut e = match p0 {
+            Some(p) => format!("{} {}^{}", v, word, p),
+            None => format!("{} {}", v, word),
+        };
+        for (p, op) in &levels {
+            e = format!("({}){}{}", e, op, p);
+        }
+        if tail {
+            e = format!("{} * 1 {}", e, word);
+        }
+        e
+    })
+}
+
 pub fn run_check(ctx: &Ctx, child: bool) {
-    ctx.set_rule("inputs: arbitrary Unicode strings, printable-ASCII noise, token soups of up to 40 tokens (numbers, vocabulary words, operators, parentheses, braces, commas, %, to, function names, fact words, multi-byte and unknown characters, Unicode blanks) and well-formed expressions with one or two token mutations; every input is passed through a sanitiser that enforces the stated bounds (power operator followed by an integer of <= 2 digits with product <= 1000, <= 2 digits after a comma, literal exponents of <= 3 digits); oracle: no panic, parse succeeds, the result sequence ends, every value displays, every error has a message and a range inside the input on char boundaries; run in a debug-assertion build and in a release build, plus a sample through the real binary; non-trivial = >= 3 tokens and at least one result that is not a plain syntax error; distinct by input text (per profile)");
+    ctx.set_rule("inputs: arbitrary Unicode strings, printable-ASCII noise, token soups of up to 40 tokens (numbers, vocabulary words, operators, parentheses, braces, commas, %, to, function names, fact words, multi-byte and unknown characters, Unicode blanks) well-formed expressions with one or two token mutations, and towers of up to seven two-digit powers over a quantity of value 0, 1 or -1 (the unit's power may leave i32; the value stays tiny); every input is passed through a sanitiser that enforces the stated bounds (power operator followed by an integer of <= 2 digits with product <= 1000, <= 2 digits after a comma, literal exponents of <= 3 digits); oracle: no panic, parse succeeds, the result sequence ends, every value displays, every error has a message and a range inside the input on char boundaries; run in a debug-assertion build and in a release build, plus a sample through the real binary; non-trivial = >= 3 tokens and at least one result that is not a plain syntax error; distinct by input text (per profile)");
     ctx.assume("a watchdog (30 s per case) turns a hang into exit 2 (inconclusive), never a violation");
     let corpus: Vec<(String, StrCase)> = load_corpus("C11");
     let cases: Vec<StrCase> = corpus.into_iter().map(|c| c.1).collect();
@@ -301,6 +324,7 @@ pub fn run_check(ctx: &Ctx, child: bool) {
     let n = ctx.tier.pick(200_000u64, 4_000_000);
     ctx.run_gen("soup", || soup().prop_map(|input| StrCase { input }), n, |c| check_str(shared_db(), &c.input), |c| to_json(c));
     ctx.run_gen("mutated-well-formed", || mutated().prop_map(|input| StrCase { input }), n / 2, |c| check_str(shared_db(), &c.input), |c| to_json(c));
+    ctx.run_gen("unit-power-towers", || power_tower().prop_map(|input| StrCase { input }), n / 8, |c| check_str(shared_db(), &c.input), |c| to_json(c));
     ctx.run_gen("ascii-noise", || "[ -~]{0,40}".prop_map(|s| StrCase { input: sanitize(&s) }), n / 4, |c| check_str(shared_db(), &c.input), |c| to_json(c));
     ctx.run_gen("unicode", || "\\PC{0,30}".prop_map(|s| StrCase { input: sanitize(&s) }), n / 8, |c| check_str(shared_db(), &c.input), |c| to_json(c));
     ctx.run_gen("any-string", || any::<String>().prop_map(|s| StrCase { input: sanitize(&s) }), n / 8, |c| check_str(shared_db(), &c.input), |c| to_json(c));
